@@ -453,7 +453,7 @@ func (v *Vue) callFunc(ctx *VueContext, fn any, args ...any) (any, error) {
 		// Try to convert the argument to the expected type
 		if argVal.Type().AssignableTo(argType) {
 			in[i] = argVal
-		} else if argVal.Type().ConvertibleTo(argType) && !(argType.Kind() == reflect.String && argVal.Kind() >= reflect.Int && argVal.Kind() <= reflect.Uintptr) {
+		} else if argVal.CanConvert(argType) && !(argType.Kind() == reflect.String && argVal.Kind() >= reflect.Int && argVal.Kind() <= reflect.Uintptr) {
 			// (Go converts an integer to a string as a code point - 65 becomes
 			// "A" - so integers for string parameters go through convertValue,
 			// which formats them as decimal numbers.)
